@@ -30,6 +30,7 @@ VERIFY_MSGS = (
     "loop invariant not satisfied",
     "loop ensures not satisfied",
     "invariant not satisfied",
+    "constructed value may fail to meet its declared type invariant",
 )
 UNDECIDED_MSGS = ("resource limit", "rlimit", "timed out", "timeout")
 
@@ -376,6 +377,37 @@ def _emit_fn(g, source, a, blocks, vacuity, probe_insert=None):
             rules.append(("R8", f"signature: {old.strip()} -> {new.strip()}"))
     body = rewrite_body(body_src, rules, intended_panics=bool(a.get("intended_panics")))
     body = apply_r9(body, rules)
+    if a.get("tls_with"):
+        # R23: `KEY.with(|x| BODY)` on a thread_local! key -> `{ let x = KEY.tls_ref(); BODY }`: the closure is applied
+        # at once to a reference to this thread's instance (LocalKey::with); KEY is the unit's stand-in for the key
+        key = a["tls_with"]
+        tk = tokenize(body)
+        sigk = [k for k, t in enumerate(tk) if t.kind not in ("ws", "comment")]
+        done = False
+        for q, k in enumerate(sigk):
+            if tk[k].kind == "ident" and tk[k].text == key and q + 7 < len(sigk):
+                w = [tk[sigk[q + d]].text for d in range(1, 7)]
+                if w[0] == "." and w[1] == "with" and w[2] == "(" and w[3] == "|" and w[5] == "|":
+                    var = w[4]
+                    open_paren = sigk[q + 3]
+                    from rsx import match_close as _mc4
+                    close_paren = _mc4(tk, open_paren)
+                    inner = "".join(t.text for t in tk[sigk[q + 6] + 1:close_paren])
+                    body = ("".join(t.text for t in tk[:k]) + "{ let " + var + " = " + key + ".tls_ref(); " + inner + " }"
+                            + "".join(t.text for t in tk[close_paren + 1:]))
+                    rules.append(("R23", f"`{key}.with(|{var}| ..)` -> `{{ let {var} = {key}.tls_ref(); .. }}`"))
+                    done = True
+                    break
+        if not done:
+            raise ExtractError(f"anchor lost: `{key}.with(|x| ..)` in {f.name}")
+    if a.get("drop_as_infer"):
+        # R2b: ` as _` after an expression (the marker of an unsizing coercion to a boxed trait object) is dropped:
+        # the stand-in `Box::new` already returns the stand-in of the trait object
+        cnt = len(re.findall(r"\s+as\s+_\b", body))
+        if not cnt:
+            raise ExtractError(f"anchor lost: ` as _` in {f.name}")
+        body = re.sub(r"\s+as\s+_\b", "", body)
+        rules.append(("R2b", f"` as _` dropped ({cnt}x)"))
     if a.get("str_lits"):
         # R15b: a string literal used as a value (not the message of `.expect(..)`) becomes `vstr_lit("..")`, an
         # opaque `&Str` of the unit's stand-in string type: its content is not modelled
@@ -525,6 +557,17 @@ def _emit_fn(g, source, a, blocks, vacuity, probe_insert=None):
         first = renamed.index("{")
         body = renamed[:first + 1] + "\n        let mut r4_self = self;" + renamed[first + 1:]
         rules.append(("R4f", "`mut self` -> `self` + `let mut r4_self = self;`, `self` renamed to `r4_self` in the body"))
+    if a.get("tuple_param"):
+        # R4g: a tuple-pattern parameter `(a, b): (A, B)` (Verus: "input of the function is not an Ident") becomes
+        # `r4_arg: (A, B)` plus `let (a, b) = r4_arg;` as the first statement
+        m = re.search(r"\(\s*(\(\s*\w+(?:\s*,\s*\w+)*\s*\))\s*:", sigtext) or re.search(r",\s*(\(\s*\w+(?:\s*,\s*\w+)*\s*\))\s*:", sigtext)
+        if not m:
+            raise ExtractError(f"anchor lost: tuple-pattern parameter in {f.name}")
+        pat = m.group(1)
+        sigtext = sigtext[:m.start(1)] + "r4_arg" + sigtext[m.end(1):]
+        first = body.index("{")
+        body = body[:first + 1] + f"\n        let {pat} = r4_arg;" + body[first + 1:]
+        rules.append(("R4g", f"tuple-pattern parameter `{pat}` -> `r4_arg` + `let {pat} = r4_arg;`"))
     if a.get("alias_get_mut"):
         # R4e: with R4 the receiver already is `&mut self`; `self.get_mut()` (Pin::get_mut) is the identity
         body = replace_pattern(body, "self.get_mut()", "self", f.name, int(a.get("alias_get_mut_count", 1)))
@@ -605,6 +648,8 @@ def _emit_fn(g, source, a, blocks, vacuity, probe_insert=None):
     f.emitted = "\n".join(g.lines[f.first - 1:f.last])
     f.sha = hashlib.sha256(f.orig.encode()).hexdigest()[:16]
     g.fns.append(f)
+    _m = re.search(r"\bfn\s+(\w+)", sigtext)
+    if _m: fname = _m.group(1)      # the name as emitted (a sig_replace may have renamed it)
     if a.get("awaited_twin"):
         # R22: Verus does not carry an async fn's `&mut` postconditions across `.await` in its caller.  The caller's
         # `X.f(..).await` is (declared //@replace) turned into a call of `f__awaited`: a body-less twin with THIS
@@ -773,6 +818,8 @@ def classify(res, g):
             others = [s for s in spans if not s.get("is_primary")]
             clause_line = others[0]["line_start"] if others else line
             fn = g.fn_at(line)
+        elif "type invariant" in low:
+            kind = "type-invariant"; fn = g.fn_at(line)
         elif "invariant" in low:
             kind = "invariant"; fn = g.fn_at(line)
         elif "assert" in low:
